@@ -66,7 +66,11 @@ func (ms msgServer) UpdateParams(goCtx context.Context, msg *types.MsgUpdatePara
 	}
 	// set updated new params
 	ms.SetParams(ctx, p)
-	_ = GetAggregatorContext(ctx, ms.Keeper)
-	cs.AddCache(cache.ItemP(p))
+	// skip the process-local cache when this is not DeliverTx: a simulated / checked message must not reach the params that
+	// the next EndBlock commits on this node only (same guard as in RegisterNewTokenAndSetTokenFeeder)
+	if !ctx.IsCheckTx() {
+		_ = GetAggregatorContext(ctx, ms.Keeper)
+		cs.AddCache(cache.ItemP(p))
+	}
 	return &types.MsgUpdateParamsResponse{}, nil
 }
